@@ -554,7 +554,6 @@ class State(MutableMapping):
             self._last_fork = None
             return
         to_revert = subset.to(torch.bool)
-        to_keep = ~to_revert
         for k, old_v in self._last_fork.items():
             cur_v = self._values[k]
             if old_v is None or cur_v is None:
@@ -565,12 +564,39 @@ class State(MutableMapping):
                 ), f"Bad shapes for {k}: {old_v.shape} != {cur_v.shape}"
                 if right_broadcasting:
                     add_ndim = max(old_v.ndim - to_revert.ndim, 0)
-                    self._values[k] = old_v * unsqueeze_right(
-                        to_revert, ndim=add_ndim
-                    ) + cur_v * unsqueeze_right(to_keep, ndim=add_ndim)
+                    self._values[k] = self._select(
+                        unsqueeze_right(to_revert, ndim=add_ndim), old_v, cur_v
+                    )
                 else:
-                    self._values[k] = old_v * to_revert + cur_v * to_keep
+                    self._values[k] = self._select(to_revert, old_v, cur_v)
         self._last_fork = None
+
+    @staticmethod
+    def _select(
+        to_revert: torch.Tensor, old_v: VariableValue, cur_v: VariableValue
+    ) -> VariableValue:
+        """Entry-wise `old_v` where `to_revert` else `cur_v`.
+
+        This is a selection, not `old_v * to_revert + cur_v * ~to_revert`: the discarded side
+        may hold non-finite numbers and `0 * inf` is NaN.
+        """
+        if isinstance(old_v, WeightedTensor) or isinstance(cur_v, WeightedTensor):
+            old_value, old_weight = WeightedTensor.get_filled_value_and_weight(old_v)
+            cur_value, cur_weight = WeightedTensor.get_filled_value_and_weight(cur_v)
+            if (
+                old_weight is not None
+                and cur_weight is not None
+                and not torch.equal(old_weight, cur_weight)
+            ):
+                raise NotImplementedError(
+                    "Partial revert of weighted tensors is not implemented when their weights differ."
+                )
+            weight = old_weight if old_weight is not None else cur_weight
+            value = torch.where(to_revert, old_value, cur_value)
+            if weight.shape != value.shape:
+                weight = weight.expand(value.shape)
+            return WeightedTensor(value, weight.clone())
+        return torch.where(to_revert, old_v, cur_v)
 
     def to_device(self, device: torch.device) -> None:
         """
